@@ -117,6 +117,13 @@ def run(repo: Repo, rep: Report) -> None:
                             return True
                     if isinstance(n, ast.Call) and isinstance(n.func, ast.Attribute) and n.func.attr in ("contexts", "quads", "graphs", "triples") and norm(n.func.value) == var:
                         return True
+                    if depth < 3 and isinstance(n, ast.Call) and isinstance(n.func, ast.Name):
+                        # a helper defined inside the function
+                        for h in own_nodes(fn, include_nested=True):
+                            if isinstance(h, ast.FunctionDef) and h.name == n.func.id and h is not fn:
+                                for i, a in enumerate(n.args):
+                                    if norm(a) == var and i < len(h.args.args) and graph_by_use(h.args.args[i].arg, h, depth + 1):
+                                        return True
                     if depth < 2 and isinstance(n, ast.Call) and isinstance(n.func, ast.Attribute) and isinstance(n.func.value, ast.Name) and n.func.value.id == "self" and cls:
                         callee = mod.defs.get("%s.%s" % (cls, n.func.attr))
                         if isinstance(callee, ast.FunctionDef):
